@@ -21,7 +21,91 @@ func c10wrapKind(f *flow.Func, call *ast.CallExpr, retryF, cbF *types.Var) strin
 	case c10fieldSel(f, recv, cbF):
 		return "breaker"
 	}
+	if c10rangedSlice(f, recv) != nil {
+		return "loop" // for _, w := range wrappers { handler = w.Wrap(handler) }
+	}
 	return "?"
+}
+
+// c10rangedSlice: recv is the value variable of a forward `for _, w := range L` over a local slice L
+// of f; returns L.
+func c10rangedSlice(f *flow.Func, recv ast.Expr) types.Object {
+	id := c10ident(recv)
+	if id == nil {
+		return nil
+	}
+	o := c10obj(f, id)
+	var out types.Object
+	ast.Inspect(f.Body, func(n ast.Node) bool {
+		rs, ok := n.(*ast.RangeStmt)
+		if !ok || rs.Value == nil {
+			return true
+		}
+		if v := c10ident(rs.Value); v != nil && f.Info.Defs[v] == o {
+			if l := c10ident(rs.X); l != nil {
+				if lv, ok := c10obj(f, l).(*types.Var); ok && !lv.IsField() {
+					out = lv
+				}
+			}
+		}
+		return true
+	})
+	return out
+}
+
+// c10sliceAppends lists the one-element appends `L = append(L, x)` to local slice L in f with the kind
+// of wrapper appended ("retry", "breaker", "?"), in source order.
+func c10sliceAppends(f *flow.Func, L types.Object, retryF, cbF *types.Var) (callsOut []*ast.CallExpr, kinds []string) {
+	ast.Inspect(f.Body, func(n ast.Node) bool {
+		as, ok := n.(*ast.AssignStmt)
+		if !ok || len(as.Lhs) != 1 || len(as.Rhs) != 1 {
+			return true
+		}
+		if id := c10ident(as.Lhs[0]); id == nil || c10obj(f, id) != L {
+			return true
+		}
+		call, ok := ast.Unparen(as.Rhs[0]).(*ast.CallExpr)
+		if !ok {
+			return true
+		}
+		if b, ok := f.Callee(call).(*types.Builtin); !ok || b.Name() != "append" {
+			return true
+		}
+		if len(call.Args) < 1 || c10ident(call.Args[0]) == nil || c10obj(f, c10ident(call.Args[0])) != L {
+			callsOut, kinds = append(callsOut, call), append(kinds, "?")
+			return true
+		}
+		for _, a := range call.Args[1:] {
+			k := "?"
+			x := c10alias(f, f.Body, a)
+			switch {
+			case c10fieldSel(f, x, retryF):
+				k = "retry"
+			case c10fieldSel(f, x, cbF):
+				k = "breaker"
+			}
+			callsOut, kinds = append(callsOut, call), append(kinds, k)
+		}
+		return true
+	})
+	return
+}
+
+// c10appliesRetry: the call applies the retry wrapper - directly, or by appending it to the slice of
+// wrappers a loop applies.
+func c10appliesRetry(f *flow.Func, call *ast.CallExpr, retryF, cbF *types.Var) bool {
+	switch c10wrapKind(f, call, retryF, cbF) {
+	case "retry":
+		return true
+	case "loop":
+		_, kinds := c10sliceAppends(f, c10rangedSlice(f, c10alias(f, f.Body, c10recv(call))), retryF, cbF)
+		for _, k := range kinds {
+			if k == "retry" {
+				return true
+			}
+		}
+	}
+	return false
 }
 
 // c10relevantInline is inlineSamePkg restricted to the callees in whose reach one of the given
@@ -76,6 +160,24 @@ func c10Handle(c *core.Ctx) {
 	for _, g := range fs {
 		for _, call := range calls(g.Body, false) {
 			switch k := c10wrapKind(g, call, retryF, cbF); k {
+			case "loop":
+				// the wrappers are collected in a slice and applied by a forward range loop: the order
+				// of the appends is the order of application, an append stands for the Wrap of its element
+				carriers[g.Body] = true
+				acalls, kinds := c10sliceAppends(g, c10rangedSlice(g, c10alias(g, g.Body, c10recv(call))), retryF, cbF)
+				for i, ac := range acalls {
+					switch kinds[i] {
+					case "retry":
+						wraps[ac] = "retry"
+						nRetry++
+					case "breaker":
+						wraps[ac] = "breaker"
+						nBreaker++
+					default:
+						c10shape(c, "R-C10-3", cons+"|retry inside breaker", pos(c, ac), "the slice of wrappers applied in a loop receives something that is neither sp.retryWrapper nor sp.circuitBreakerWrapper")
+						return
+					}
+				}
 			case "retry", "breaker":
 				wraps[call] = k
 				carriers[g.Body] = true
@@ -400,7 +502,14 @@ func c10Handle(c *core.Ctx) {
 		}
 		arg := ast.Expr(nil)
 		if len(inv.Args) == 1 {
-			arg = ast.Unparen(inv.Args[0])
+			// the argument, or the single-assignment local it was given a name with (reqCtx := req.Context())
+			var root ast.Node = f.Body
+			for _, g := range fs {
+				if contains(g.Body, inv) {
+					root = g.Body
+				}
+			}
+			arg = ast.Unparen(c10alias(f, root, inv.Args[0]))
 		}
 		if call, ok := arg.(*ast.CallExpr); !ok || !(calleeIs(f, call, "(*"+c10hp+".Request).Context") || calleeFull(f, call) == "(*net/http.Request).Context") {
 			okArg = false
